@@ -10,8 +10,8 @@ from vfcore import REPO, VERIF
 
 META = {
     "engine": "fuzz", "level": "exploration", "design_ref": "DESIGN.md §4.3 C54",
-    "technique": "out-of-process mutation fuzzing (byte, token, keyword-dictionary, splice, nesting, hostile numbers) of the ASan+UBSan+assert build of mtest (both schemes) on the repository's .mtest/.ptest corpus bound to freshly generated behaviours, with an exit classifier",
-    "text": "Mutated .mtest and .ptest inputs (repository corpus with its build-time placeholders bound to behaviours generated and compiled in this run, plus four complete seeds that really execute) are fed to the sanitizer-instrumented real mtest binary. Death by signal other than the documented terminate path, sanitizer report, failed assertion or confirmed hang (watchdog twice) is a violation with the input as witness; the libstdc++ 'terminate called after throwing …what():' abort is mtest's documented error report. Sizes that legitimately request long computations are capped by the mutator (@Times subdivisions, sub-steps).",
+    "technique": "out-of-process systematic keyword sweep + mutation fuzzing (byte, token, keyword-dictionary, splice, nesting, hostile numbers, name aliasing) of the ASan+UBSan+assert build of mtest (both schemes) on the repository's .mtest/.ptest corpus bound to freshly generated behaviours, with an exit classifier",
+    "text": "A systematic sweep places every keyword of both schemes (read from the binary) alone after a minimal header, right after the first statement and at the end of a complete seed, followed by varied argument shapes; then mutated .mtest and .ptest inputs (repository corpus with its build-time placeholders bound to behaviours generated and compiled in this run, plus four complete seeds that really execute) are fed to the sanitizer-instrumented real mtest binary. Death by signal other than the documented terminate path, sanitizer report, failed assertion or confirmed hang (watchdog twice) is a violation with the input as witness; the libstdc++ 'terminate called after throwing …what():' abort is mtest's documented error report. Sizes that legitimately request long computations are capped by the mutator (@Times subdivisions, sub-steps).",
     "note": "Trusted: the classifier; behaviours are loaded from plain (uninstrumented) generated libraries. 'allocation-size-too-big'/'out-of-memory' under ASan are counted as resource exhaustion, not judged.",
 }
 
@@ -120,6 +120,47 @@ def run(ctx):
                vfcore.sha(mut), mut != data, (r.err[-2500:] if crash else ""))
         shutil.rmtree(d, ignore_errors=True)
         return res
+
+    # ---- systematic keyword sweep: every keyword of both schemes alone after a minimal header, right after the first statement
+    # and at the end of a complete seed that really executes
+    gs = vfcore.rng(ctx.seed, "c54-sweep")
+    sweep = []
+    for scheme, ext in (("mtest", ".mtest"), ("ptest", ".ptest")):
+        r = vfcore.run([mtest, "--scheme=" + scheme, "--help-keywords-list"], timeout=300, env=env)
+        kws = sorted({m.group(1).encode() for m in re.finditer(r"(@[A-Za-z_0-9]+)", r.out + r.err)})
+        seedf = next((f for f in own if f.suffix == ext), None)
+        real = bind(seedf.read_bytes(), libs, gs) if seedf is not None else b"@Author x;\n"
+        for label, data in fuzz.keyword_sweep(gs, kws, (b"@Author x;", real), ctx.thorough):
+            sweep.append((ext, label, data))
+    ctx.cov["keyword_sweep"] = {"inputs_run": len(sweep)}
+
+    def one_sweep(args):
+        k, (ext, label, data) = args
+        d = ctx.work / ("s%d" % k)
+        d.mkdir()
+        (d / ("in" + ext)).write_bytes(cap_sizes(data))
+        cmd = [mtest, "--verbose=quiet", "in" + ext]
+        r = vfcore.run(cmd, timeout=60, cwd=d, env=env)
+        if r.timed_out:
+            r2 = vfcore.run(cmd, timeout=150, cwd=d, env=env)
+            if not r2.timed_out:
+                r = r2
+        crash = ctx.classify_crash(r, recognised_terminate=True)
+        shutil.rmtree(d, ignore_errors=True)
+        return ext, label, data, crash, (r.err[-2500:] if crash else ""), r.rc
+
+    nsw = {"error": 0, "success": 0, "crash": 0}
+    for ext, label, data, crash, err, rc in vfcore.pmap(one_sweep, list(enumerate(sweep)), workers=vfcore.NCPU):
+        ctx.add_eval()
+        ctx.add_distinct(vfcore.sha(data))
+        if crash and not (crash.startswith("asan:allocation-size-too-big") or crash.startswith("asan:out-of-memory")):
+            nsw["crash"] += 1
+            ctx.violation("mtest%s:keyword-sweep:%s:%s" % (ext, label.split("/")[0], crash), "mtest on keyword %s (%s): %s\n%s" % (label, ext, crash, err),
+                          {"keyword_and_placement": label, "input_base64": base64.b64encode(data).decode()})
+        else:
+            nsw["success" if rc == 0 else "error"] += 1
+    ctx.cov["keyword_sweep"]["outcomes"] = nsw
+    ctx.require(len(sweep) > 100, "keyword sweep too small (%d)" % len(sweep))
 
     classes, kinds, exts = {}, {}, {}
     for i, f, kind, ext, crash, cls, mut, h, nontrivial, err in vfcore.pmap(one, range(n), workers=vfcore.NCPU):
